@@ -348,6 +348,14 @@ def _hints_from_signature(obj: tp.Union[type, tp.Callable]) -> dict[str, type[tp
             )
             hints[name] = ref
             continue
+        if isinstance(annotation, refs.ForwardRef) and not annotation.__forward_module__:
+            # A reference without a module (e.g., a field of a `typing.NamedTuple`) can
+            #   only ever be evaluated against the module of the object it annotates.
+            annotation = refs.forwardref(
+                annotation.__forward_arg__,
+                is_argument=annotation.__forward_is_argument__,
+                module=getattr(obj, "__module__", None),
+            )
         hints[name] = annotation  # pragma: no cover
     return hints
 
